@@ -3,7 +3,7 @@
 T_VSTD = "T-vstd: vstd's specifications of Vec, Option, Result, BTreeSet, str/UTF-8, ranges, for-loops"
 T_ARITH = "machine arithmetic is NOT treated as mathematical: Verus checks every + - * for overflow"
 T_EXTRACT = ("extraction: function bodies are cut from /repo/src on every run by a brace/string/comment-aware scanner "
-             "(tools/rsx.py); rewrites R1-R8 (coverage.rewrite_rules, hit counts in coverage.units[].rewrite_hits) are assumed semantics-preserving")
+             "(tools/rsx.py); rewrites R1-R16 (coverage.rewrite_rules, hit counts in coverage.units[].rewrite_hits) are assumed semantics-preserving")
 
 PROPS = {
     'C20': dict(
